@@ -395,5 +395,14 @@ func requireFuncs(w *World, r *Report, names ...string) (map[string]*ssa.Functio
 		out[n] = f
 		r.OK("R-ANCHOR", n, w.Pos(f.Pos()))
 	}
+	// every anchored function that exported code can reach must be stateless (stateless.go)
+	var live []string
+	sc := statelessOf(w)
+	for _, n := range names {
+		if f := out[n]; f != nil && sc.apiAll[f] {
+			live = append(live, n)
+		}
+	}
+	ReportStateless(w, r, live...)
 	return out, all
 }
